@@ -4,6 +4,9 @@ from .scn import Rng
 
 TYPES = {
     'nn': ('m_nn', ['n', 'n']), 'on': ('m_on', ['o', 'n']), 'ss': ('m_ss', ['s', 's']), 'll': ('m_ll', ['l', 'l']), 'n': ('m_n', ['n']),
+    # W has a deliberately irregular PartialEq: `eq` is not symmetric and `ne` is not `!eq` — `eq!`/`ne!` must be the Rust
+    # operators `arg == operand` / `arg != operand` verbatim (no Lean line: judged against the native match only)
+    'ww': ('m_ww', ['w', 'w']),
 }
 STRS = ['', 'a', 'ab', 'b']
 
@@ -73,7 +76,13 @@ def pat_l(rng, pos):
     a, b = el(), el()
     return Pat(f"[{a.rust}, .., {b.rust}]", f"t[{a.sexpr}][{b.sexpr}]")
 
-PATGEN = {'n': pat_n, 'o': pat_o, 's': pat_s, 'l': pat_l}
+def pat_w(rng, pos):
+    k = rng.below(3)
+    if k == 0: return Pat('_', 'w')
+    if k == 1: return Pat(f"x{pos}", f"b{pos}", [pos])
+    return Pat(f"W({rng.below(4)})", 'w')
+
+PATGEN = {'n': pat_n, 'o': pat_o, 's': pat_s, 'l': pat_l, 'w': pat_w}
 
 class Case:
     pass
@@ -81,10 +90,10 @@ class Case:
 def gen_case(rng, ident, force=None):
     c = Case()
     c.ident = ident
-    c.types = force or rng.weighted([('nn', 5), ('on', 3), ('ss', 2), ('ll', 2), ('n', 2)])
+    c.types = force or rng.weighted([('nn', 5), ('on', 3), ('ss', 2), ('ll', 2), ('n', 2), ('ww', 2)])
     c.method, argtys = TYPES[c.types]
     nalts = rng.weighted([(1, 5), (2, 3)])     # three or more alternatives do not parse (recorded in DESIGN.md)
-    use_guard = rng.chance(1, 3) and 'n' in argtys[:1] + argtys[1:2]
+    use_guard = rng.chance(1, 3) and 'n' in argtys[:1] + argtys[1:2] and c.types != 'ww'
     guard_pos = None
     if use_guard:
         cand = [i for i, t in enumerate(argtys) if t == 'n']
@@ -121,6 +130,8 @@ def gen_case(rng, ident, force=None):
                 k = rng.below(4)
                 op = rng.choice(['EQ', 'NE'])
                 elems.append((op, k))
+            elif t == 'w' and rng.chance(2, 3):
+                elems.append((rng.choice(['EQ', 'NE']), f"W({rng.below(4)})"))
             else:
                 elems.append(('P', PATGEN[t](rng, pos)))
         alts.append(elems)
@@ -168,6 +179,8 @@ def native_arms(c):
     return arms
 
 def lean_line(c):
+    if c.types == 'ww':
+        return f"# {c.ident}: irregular PartialEq, no model line"
     def el(e):
         if e[0] == 'P': return 'P:' + e[1].sexpr
         return f"{e[0]}:n{e[1]}"
@@ -179,6 +192,7 @@ DOMAIN_RS = {
     'o': ('Option<u8>', '[None, Some(0u8), Some(1), Some(2)]'),
     's': ('&str', '["", "a", "ab"]'),
     'l': ('Vec<u8>', '[vec![], vec![1u8], vec![1, 2], vec![1, 2, 3]]'),
+    'w': ('W', '[W(0), W(1), W(2), W(3)]'),
 }
 
 def rust_case(c):
@@ -188,6 +202,7 @@ def rust_case(c):
         'nn': ('*a0, *a1', '(a0, a1)'), 'on': ('*a0, *a1', '(a0, a1)'), 'n': ('*a0', 'a0'),
         'ss': ('a0, a1.to_string()', '(AsRef::<str>::as_ref(a0), AsRef::<str>::as_ref(a1))'),
         'll': ('&a0[..], a1.clone()', '(AsRef::<[u8]>::as_ref(a0), AsRef::<[u8]>::as_ref(a1))'),
+        'ww': ('a0.clone(), a1.clone()', '(a0, a1)'),
     }[c.types]
     loops = ''.join(f"for a{i} in {DOMAIN_RS[t][1]}.iter() {{ " for i, t in enumerate(argtys))
     closes = '}' * len(argtys)
